@@ -5,7 +5,7 @@
     (Gen/StreamConsts.v, Gen/HelloConsts.v). *)
 From Coq Require Import List NArith Bool.
 From Verif Require Import Lib.Bytes Sni.Wire Sni.Hello Sni.HelloProofs Sni.Stream Sni.StreamProofs
-  Sni.StreamClose Sni.ReadBuf Sni.ReadBufProofs Sni.ReadHold Sni.ReadHoldProofs Sni.SideRead Sni.SideReadProofs Sni.StreamGen Gen.StreamConsts Gen.HelloConsts Gen.WireSchema Sni.WireGen.
+  Sni.StreamClose Sni.ReadBuf Sni.ReadBufProofs Sni.ReadHold Sni.ReadHoldProofs Sni.PendingAge Sni.PendingAgeProofs Sni.SideRead Sni.SideReadProofs Sni.StreamGen Gen.StreamConsts Gen.HelloConsts Gen.WireSchema Sni.WireGen.
 Import ListNotations.
 Local Open Scope N_scope.
 
@@ -339,6 +339,33 @@ Theorem C01_idle_sessions_never_starve_a_read_refuted : forall cap i,
 Proof. exact (fun cap i => conj (semaphore_starves cap i) (one_slot_free cap)). Qed.
 Print Assumptions C01_idle_sessions_never_starve_a_read_refuted.
 
+(** ** A pending read does not age (multiplexed tunnel)
+
+    The application->client direction of a silent session is a read call that
+    stays in the serve loop's pending table.  With the eviction rule emitted
+    from the current source (only the entry under the id just handed out is
+    looked up), for every history of sends and replies: a call that was sent
+    and whose own reply has not been fetched is still pending after ANY number
+    of newer calls - no step depends on the distance between ids. *)
+Theorem C01_pending_call_does_not_age : forall before after id,
+  evict_of gen_pending_evict_keys = EvictSameId /\
+  (id = p_next (prun EvictSameId before) ->
+   ~ In (PReply id) after ->
+   In id (p_pending (prun EvictSameId (before ++ PSend :: after)))).
+Proof.
+  exact (fun before after id => conj gen_pending_evict_same_id (pending_until_own_reply before after id)).
+Qed.
+Print Assumptions C01_pending_call_does_not_age.
+
+(** A windowed eviction (seeded change C01-i): refuted - the call with id 0 is
+    sent, w+1 newer calls follow, its reply was never fetched: it is no longer
+    pending, it was failed with errTooLong. *)
+Theorem C01_pending_call_does_not_age_refuted : forall w,
+  let s := prun (EvictWindow (S w)) (PSend :: repeat PSend (S w)) in
+  ~ In 0%nat (p_pending s) /\ In 0%nat (p_evicted s).
+Proof. exact window_evicts_old_call. Qed.
+Print Assumptions C01_pending_call_does_not_age_refuted.
+
 (** ** The code the models were written against is the code in the tree *)
 Theorem C01_source_tie :
   0 < gen_side_chunk /\ gen_side_chunk <= gen_ws_write_buf /\
@@ -346,11 +373,14 @@ Theorem C01_source_tie :
   gen_close_policy = CloseBoth /\
   rb_ownedb gen_read_buf = true /\
   (holds_nothingb gen_read_held = true /\ holds_nothingb gen_write_held = true) /\
+  evict_of gen_pending_evict_keys = EvictSameId /\
+  list_eqb String.eqb gen_rpc_int_literals known_rpc_int_literals = true /\
   StreamGen.src_diff gen_stream_src frozen_stream_src = [].
 Proof.
   exact (conj gen_side_chunk_pos (conj gen_side_chunk_fits (conj gen_copy_fits_read_cap
           (conj gen_hello_cap_ge5 (conj gen_close_policy_both
-            (conj gen_read_buf_owned (conj gen_read_holds_nothing_shared gen_stream_src_frozen))))))).
+            (conj gen_read_buf_owned (conj gen_read_holds_nothing_shared
+              (conj gen_pending_evict_same_id (conj gen_rpc_int_literals_known gen_stream_src_frozen))))))))).
 Qed.
 Print Assumptions C01_source_tie.
 
@@ -368,6 +398,16 @@ Example C01_nonvacuous_fragments :
   fst (fst (fst (side_read_f 4096 [] s'))) = [] /\ snd (fst (fst (side_read_f 4096 [] s'))) = RErrS /\
   owed_f (mkR None script) = [1; 2; 3; 4; 5; 6; 7; 8; 9].
 Proof. vm_compute. repeat split. Qed.
+
+(** A read is sent, 300 newer calls pass and all of them are answered: it is
+    still pending under the emitted rule and nothing was failed; under a
+    256-wide window it was failed after 256 of them. *)
+Example C01_nonvacuous_age :
+  let evs := PSend :: flat_map (fun i => [PSend; PReply (S i)]) (seq 0 300) in
+  In 0%nat (p_pending (prun (evict_of gen_pending_evict_keys) evs)) /\
+  p_evicted (prun (evict_of gen_pending_evict_keys) evs) = [] /\
+  p_evicted (prun (EvictWindow 256) evs) = [0%nat].
+Proof. vm_compute. repeat split. left. reflexivity. Qed.
 
 (** 64 silent sessions and a 65th with data: under the emitted policy the
     65th completes in two steps; under a 64-slot semaphore it cannot start;
